@@ -111,7 +111,8 @@ WHAT = {1: "nearest sampling returned a different source pixel (got r*1000+a %d,
         2: "a bilinear sample lies outside the range of its 2x2 source pixels (got %d, bound %d)",
         3: "the result is not a valid premultiplied colour (channel %d above alpha %d)",
         4: "a pixel outside the source rectangle of draw_pixmap changed (alpha %d, was %d)",
-        5: "a constant-colour image is not reproduced (got r*1000+a %d, expected %d)"}
+        5: "a constant-colour image is not reproduced (got r*1000+a %d, expected %d)",
+        6: "a channel differs from the reference (filter taps and weights at the mapped position, clamps, opacity, blend): got %d, reference %d"}
 
 
 def oracle(suite, args, out):
@@ -135,9 +136,9 @@ def oracle(suite, args, out):
         if len(o) == 1 and not (0 <= o[0] < args[0] * args[1]):
             return "the gather index %d is outside the %dx%d source image" % (o[0], args[0], args[1])
         return None
-    if len(o) >= 11 and sum(o[1:6]) > 0:
-        return "%d wrong-nearest, %d outside-hull, %d non-premultiplied, %d outside-rect, %d constant-not-reproduced of %d pixels; first at (%d,%d): %s" % (
-            o[1], o[2], o[3], o[4], o[5], o[0], o[6], o[7], WHAT.get(o[8], "?%d %d") % (o[9], o[10]))
+    if len(o) >= 11 and (sum(o[1:6]) > 0 or (len(o) >= 12 and o[11] > 0)):
+        return "%d wrong-nearest, %d outside-hull, %d non-premultiplied, %d outside-rect, %d constant-not-reproduced, %d off-reference (worst %.2f levels) of %d pixels; first at (%d,%d): %s" % (
+            o[1], o[2], o[3], o[4], o[5], o[11] if len(o) >= 12 else 0, (o[12] if len(o) >= 13 else 0) / 100.0, o[0], o[6], o[7], WHAT.get(o[8], "?%d %d") % (o[9], o[10]))
     return None
 
 
